@@ -178,13 +178,23 @@ def run_one(rng, counters, violations, sigs, samples):
         targets.append(("instance", sm, st))
     sids, init, ext, internal = expected(spec)
     nontrivial = bool(internal) or any(s["final"] for s in spec["states"]) or len(set((t["src"], t["dst"]) for t in ext)) < len(ext)
+    # one renderer object kept over the instance's life (its picture must follow the machine) or a
+    # fresh one per picture, or the machine's own _graph()
+    reuse = rng.choice(["fresh", "kept", "kept", "_graph"])
+    kept = DotGraphMachine(sm)
     for kind, obj, st in targets:
         current = None
         if kind == "instance":
             sm.current_state_value = st.value
             current = st.id
             counters["instance_graphs"] += 1
-        graph = DotGraphMachine(obj)()
+        if kind == "instance" and reuse == "kept":
+            graph = kept()
+            counters["renderer_reused"] = counters.get("renderer_reused", 0) + 1
+        elif kind == "instance" and reuse == "_graph":
+            graph = sm._graph()
+        else:
+            graph = DotGraphMachine(obj)()
         counters["graphs"] += 1
         probs = judge(spec, *read_pydot(graph), current, "pydot", counters)
         if not probs and (counters["graphs"] % 3 == 0 or kind == "class"):
